@@ -20,6 +20,19 @@ PROP_NAMES = {
 }
 
 
+ERR_ATTRS = {
+    "TypeValidationError": ["expected_type"], "ValueValidationError": ["expected_value"],
+    "MinValueValidationError": ["min_value"], "MaxValueValidationError": ["max_value"],
+    "LengthValidationError": ["length"], "MinLengthValidationError": ["min_length"],
+    "MaxLengthValidationError": ["max_length"], "AlphabetValidationError": ["alphabet"],
+    "SubstrValidationError": ["substr"], "RegexValidationError": ["pattern"],
+    "MissingElementValidationError": ["index"], "ExtraElementValidationError": ["index"],
+    "MissingKeyValidationError": ["missing_key"], "ExtraKeyValidationError": ["extra_key"],
+    "SchemaMismatchValidationError": ["expected_schemas"],
+    "InvalidUUIDVersionValidationError": ["actual_version", "expected_version"],
+}
+
+
 class Decoder:
     def __init__(self, model: z3.ModelRef, ct, ph: Any = None, max_len: int = 6, max_depth: int = 6) -> None:
         self.m = model
@@ -113,6 +126,9 @@ class Decoder:
                     if d.get("k") != "nil":
                         props[p] = d
             return {"k": "schema", "cls": cname, "props": props}
+        if cname.endswith("ValidationError") and cname in ERR_ATTRS:
+            return {"k": "error", "cls": cname,
+                    "attrs": {a: self.decode(M.attr(a)(v), depth + 1) for a in ["path", "actual_value"] + ERR_ATTRS[cname]}}
         if cname == "optional":
             return {"k": "optional", "key": self.decode(M.attr("_key")(v), depth + 1)}
         return {"k": "opaque", "cls": cname}
